@@ -29,14 +29,14 @@ pub const LEADING: [&str; 4] = ["", "# l\n", "\n", "# l\n\n"];
 pub const NAMES_ALT: [&str; 5] = ["X-y", "a.b+c~1", "A#b", "0", "[x]"];
 pub const COLONS: [&str; 4] = [": ", ":", ":\t", ":  "];
 pub const FIRSTS: [&str; 9] = ["v", "v w", "é ü", "", "#x", ":x", "a: b", "x\ty", "v  "];
-pub const CONTS: [&str; 7] = ["", "w", "é", ".", "a:b", ":x", "-x"]; // "" = absent
+pub const CONTS: [&str; 8] = ["", "w", "é", ".", "a:b", ":x", "-x", "<blank>"]; // "" = absent; "<blank>" = a continuation line holding nothing but its indentation
 pub const INDENTS: [&str; 4] = [" ", "\t", "   ", " \t"];
 pub const SEPS: [&str; 3] = ["\n", "\n\n", "\n# s\n\n"];
 pub const TRAILING: [&str; 4] = ["", "\n", "# t\n", "\n# t\n"];
 
 pub const FIELD_SLOTS: usize = 8;
 // per field: ncomments, name, colon, first, cont1, ind1, cont2, ind2
-const FIELD_MENUS: [usize; FIELD_SLOTS] = [3, 7, 4, 9, 7, 4, 7, 4];
+const FIELD_MENUS: [usize; FIELD_SLOTS] = [3, 7, 4, 9, 8, 4, 8, 4];
 
 pub fn menus(sk: Skel) -> Vec<usize> {
     let mut m = vec![LEADING.len()];
@@ -125,12 +125,21 @@ pub fn render_opt(sk: Skel, v: &[usize], unique: bool) -> Option<Doc> {
                 lines.push(&first_owned);
             }
             for (c, ind) in [(c1, i1), (c2, i2)] {
-                if c != 0 {
+                if c == CONTS.len() - 1 {
+                    // whitespace-only continuation line: error-free, contributes no value line
+                    text.push_str(INDENTS[ind]);
+                    text.push('\n');
+                } else if c != 0 {
                     text.push_str(INDENTS[ind]);
                     text.push_str(CONTS[c]);
                     text.push('\n');
                     lines.push(CONTS[c]);
                 }
+            }
+            // a blank continuation line at the very end of a value is indistinguishable from trailing whitespace
+            // of the paragraph for some layouts; keep it only when a real line follows it
+            if c2 == CONTS.len() - 1 || (c1 == CONTS.len() - 1 && c2 == 0) {
+                return None;
             }
             fields.push((name, lines.join("\n")));
         }
